@@ -87,7 +87,8 @@ def _run(ctx, rep):
             arg, w = x[meth]; exp = wrap(add(v, S_of([('int', arg, w)])), 256)
         I.sink_call(meth, [RefV(Cell(st), True), arg], {'sp': None})
         got = st.fields['value']
-        ok = is_term(got) and not I.tops and equal(got, exp)[0]
+        from evalr import canon_bytes
+        ok = is_term(got) and not I.tops and equal(canon_bytes(got), canon_bytes(exp))[0]
         for c in I.calls_seen: rep.analysed.add(c)
         rep.ob('sink', 'Checksum as AmlSink::' + meth, ok, 'state after sink.%s is %s, specified %s' % (meth, show(got) if is_term(got) else got, show(exp)),
                detail={'entry_point': meth, 'result': show(got) if is_term(got) else repr(got), 'specified': show(exp), 'via': I.calls_seen[-3:]})
